@@ -10,7 +10,7 @@ ID = "C06"
 LEAN_MODULES = ["PycModel.Properties.C06"]
 NAMESPACES = ["PycModel.C06"]
 REQUIRED_THEOREMS = ["PycModel.C06.lexer_pull_never_crashes", "PycModel.C06.lex_error_has_full_location",
-                     "PycModel.C06.scanner_terminates"]
+                     "PycModel.C06.scanner_terminates", "PycModel.C06.scope_stack_never_empty"]
 LEVEL = "proof"
 TRUSTED = ["whole-parser crash-freedom (C06.Full) is stated but only the lexer / error-channel part is proved; the rest rests on the exhaustive token-sequence correspondence"]
 ASSUMPTIONS = ["RecursionError is tolerated (property text)"]
